@@ -1,6 +1,7 @@
 (* C19: work and memory are bounded by the input actually supplied. *)
 From Coq Require Import List NArith Lia Bool.
 From Rpgp Require Import Base.Octets Kdf.Kdf Cost.Cost Cost.CostProofs.
+From Rpgp Require Import Io.Reassemble Io.ReassembleProofs.
 From Rpgp Require Import Base.Res Sym.Cfb Sym.Seipd1Machine Sym.Seipd1MachineProofs Aead.Seipd2 Aead.Seipd2Machine Aead.Seipd2MachineProofs Frame.Framing Frame.BodyReader Frame.BodyReaderProofs.
 Import ListNotations.
 Open Scope N_scope.
@@ -53,3 +54,13 @@ Theorem C19_packet_body_reader_buffer_bounded :
   forall n s, lenN (bbuf s) <= BUFSZ -> lenN (bbuf (fst (br_take n s))) <= BUFSZ.
 Proof. exact br_take_bound. Qed.
 Print Assumptions C19_packet_body_reader_buffer_bounded.
+
+(* reassembly of armor headers / footers / cleartext headers (armor::read_from_buf): whatever the source sends, the parser is
+   never given limit + (one piece) octets or more, and is called at most once per piece the source showed *)
+Theorem C19_reassembly_bounded :
+  forall (T : Type) (P : bytes -> pres T) limit maxpiece cs,
+    Forall (fun c => lenN c <= maxpiece) cs ->
+    Forall (fun n => n < limit + maxpiece \/ n <= maxpiece) (rfb_calls T P limit cs) /\
+    (length (rfb_calls T P limit cs) <= length cs)%nat.
+Proof. exact rfb_calls_bounded. Qed.
+Print Assumptions C19_reassembly_bounded.
